@@ -107,31 +107,13 @@ impl SwiftField for Field52B {
         let mut current_idx = 0;
 
         // Check for party identifier
-        if !lines.is_empty() && lines[0].starts_with('/') {
-            let line = &lines[0][1..]; // Remove leading /
-
-            // Check if it's /1!a/34x format
-            if let Some(slash_pos) = line.find('/') {
-                let code = &line[..slash_pos];
-                let id = &line[slash_pos + 1..];
-
-                if code.len() == 1
-                    && code.chars().all(|c| c.is_ascii_alphabetic())
-                    && id.len() <= 34
-                {
-                    parse_swift_chars(id, "Field 52B party identifier")?;
-                    party_identifier = Some(format!("{}/{}", code, id));
-                    current_idx = 1;
-                }
-            } else if line.len() <= 34 {
-                // Just /34x format
-                parse_swift_chars(line, "Field 52B party identifier")?;
-                party_identifier = Some(line.to_string());
-                current_idx = 1;
-            }
+        if !lines.is_empty()
+            && let Some(party_id) = parse_party_identifier(lines[0])?
+        {
+            party_identifier = Some(party_id);
+            current_idx = 1;
         }
 
-        // Check for location
         if current_idx < lines.len() {
             let loc = lines[current_idx];
             // The location line is 35x and the last line: it is not skipped when it is too long,
@@ -239,31 +221,11 @@ impl SwiftField for Field52D {
         let mut start_idx = 0;
 
         // Check for party identifier
-        if lines[0].starts_with('/') {
-            let line = &lines[0][1..]; // Remove leading /
-
-            // Check if it's /1!a/34x format
-            if let Some(slash_pos) = line.find('/') {
-                let code = &line[..slash_pos];
-                let id = &line[slash_pos + 1..];
-
-                if code.len() == 1
-                    && code.chars().all(|c| c.is_ascii_alphabetic())
-                    && id.len() <= 34
-                {
-                    parse_swift_chars(id, "Field 52D party identifier")?;
-                    party_identifier = Some(format!("{}/{}", code, id));
-                    start_idx = 1;
-                }
-            } else if line.len() <= 34 {
-                // Just /34x format
-                parse_swift_chars(line, "Field 52D party identifier")?;
-                party_identifier = Some(line.to_string());
-                start_idx = 1;
-            }
+        if let Some(party_id) = parse_party_identifier(lines[0])? {
+            party_identifier = Some(party_id);
+            start_idx = 1;
         }
 
-        // Parse name and address lines
         let name_and_address = parse_name_and_address(&lines, start_idx, "Field 52D")?;
 
         Ok(Field52D {
